@@ -8,7 +8,8 @@ CONSTANTS MaxTrips, Emit
 VARIABLES j, pc
 vars == <<j, pc>>
 
-OptT == {None, Some(55)}
+ZeroT == 0 - 1000000                  \* stands for time.Time{} (rendered as its Unix value, not as an empty cell)
+OptT == {None, Some(55), Some(ZeroT)}
 StShapes == {[stop |-> s, arr |-> a, dep |-> d, track |-> t, lastObs |-> 30, marked |-> m] :
                 s \in {1, 2}, a \in {None, Some(41)}, d \in {None, Some(42)}, t \in {None, Some(2)}, m \in OptT}
 StLists == {<<>>} \cup {<<a>> : a \in StShapes} \cup
